@@ -36,6 +36,18 @@ impl Oracle for C01 {
         if t.outcome.is_ok() || matches!(t.outcome, Outcome::Err(_)) {
             healthy &= check_state(rep, t.hist, Some(t.op), t.post, t.ord);
         }
+        // (3) protect_text adds data to annotations and updates the data index by hand: probe it in every new state
+        if healthy && t.new_state && t.divergence.is_none() && !t.post_model.live_anns().is_empty() {
+            let mut hist = t.hist.to_vec();
+            hist.push(t.op.clone());
+            for m in [PMode::Text, PMode::Checksum, PMode::Both, PMode::Auto] {
+                let (mut s, _) = replay_real(&hist);
+                let op = Op::Protect(m);
+                if apply_real(&mut s, &op).is_ok() {
+                    check_state(rep, &hist, Some(&op), &s, t.ord);
+                }
+            }
+        }
         healthy
     }
 }
